@@ -1070,7 +1070,10 @@ def builtins_case(seed):
     rules.append(Rule('Q', [x, Size(l)], body=Conj([A('G', x), Cmp('==', l, ListE([]))])))
   elif kind == 'in_bool':
     lst = ListE([rnd.choice([y, Num(rnd.randint(0, 3)), Bin('+', x, Num(1))]) for _ in range(rnd.randint(0, 3))])
-    rules.append(Rule('P', [x, y], body=Conj([A('E', x, y), rnd.choice([InB(x, lst), BNot(InB(x, lst)),
+    # a bare `(x in l)` conjunct is an inclusion proposition (one solution per equal element, as C11
+    # spells out), whatever the parentheses; `in` is a boolean only inside an expression
+    rules.append(Rule('P', [x, y], body=Conj([A('E', x, y), rnd.choice([InP(x, lst) if lst.items else BNot(InB(x, lst)),
+                                                                       BNot(InB(x, lst)),
                                                                        BOr(InB(x, lst), Cmp('>', y, Num(1)))])])))
   elif kind in ('greatest', 'least'):
     name = 'Greatest' if kind == 'greatest' else 'Least'
